@@ -78,6 +78,8 @@ func (c *Conn) CloseRead(ctx context.Context) context.Context {
 		defer close(c.closeReadDone)
 		defer cancel()
 		defer c.close()
+		vhook(7, c, nil, 1, 0)
+		defer vhook(8, c, nil, 1, 0)
 		_, _, err := c.Reader(ctx)
 		if err == nil {
 			c.Close(StatusPolicyViolation, "unexpected data message")
@@ -240,6 +242,7 @@ func (c *Conn) readFrameHeader(ctx context.Context) (header, error) {
 	case <-c.closed:
 		return header{}, net.ErrClosed
 	case c.readTimeout <- ctx:
+		vhook(6, c, nil, 0, 1)
 	}
 
 	h, err := readFrameHeader(c.br, c.readHeaderBuf[:])
@@ -258,6 +261,7 @@ func (c *Conn) readFrameHeader(ctx context.Context) (header, error) {
 	case <-c.closed:
 		return header{}, net.ErrClosed
 	case c.readTimeout <- context.Background():
+		vhook(6, c, nil, 0, 0)
 	}
 
 	return h, nil
@@ -268,6 +272,7 @@ func (c *Conn) readFramePayload(ctx context.Context, p []byte) (int, error) {
 	case <-c.closed:
 		return 0, net.ErrClosed
 	case c.readTimeout <- ctx:
+		vhook(6, c, nil, 0, 1)
 	}
 
 	n, err := io.ReadFull(c.br, p)
@@ -286,6 +291,7 @@ func (c *Conn) readFramePayload(ctx context.Context, p []byte) (int, error) {
 	case <-c.closed:
 		return n, net.ErrClosed
 	case c.readTimeout <- context.Background():
+		vhook(6, c, nil, 0, 0)
 	}
 
 	return n, err
